@@ -2748,6 +2748,7 @@ func (m *Machine) detectQueueDuplicates(mutationType MutationType,
 	if !found {
 		return false
 	}
+	verifhook.Point("dq.found")
 
 	// not a duplicate if any other mutation is scheduled after it (eg the
 	// counter mutation), as the result would differ
